@@ -27,20 +27,31 @@ var refSigs = map[string]refSig{
 // refCheckCall decides the static faults of a call: unknown function, arity,
 // and expression-reference position (invalid-type).
 func refCheckCall(n *rnode) int {
+	arity, refs := refCallFaults(n)
+	if arity != ecNone {
+		return arity
+	}
+	return refs
+}
+
+// refCallFaults reports the two kinds of static call faults separately
+// (unknown function / arity, and expression-reference position).
+func refCallFaults(n *rnode) (int, int) {
 	sig, ok := refSigs[n.str]
 	if !ok {
-		return ecUnknownFn
+		return ecUnknownFn, ecNone
 	}
+	arity, refs := ecNone, ecNone
 	if len(n.kids) < sig.min || (sig.max >= 0 && len(n.kids) > sig.max) {
-		return ecArity
+		arity = ecArity
 	}
 	for i, k := range n.kids {
 		isRef := k.kind == rnExpref
 		if isRef != (i == sig.expref) {
-			return ecType
+			refs = ecType
 		}
 	}
-	return ecNone
+	return arity, refs
 }
 
 // refInt: a number with an integral value in any carrier or spelling.
